@@ -78,13 +78,63 @@ def r1(db, rep):
         ties = tie_members(f, f["body"], None)
         key = opname
         if len(ties) != 2:
-            # member-wise comparison without tie: every member must be mentioned on both sides
-            txt = " ".join(facts.expr_str(n) for n in facts.fn_nodes(f) if n["k"] == "MemberExpr")
-            miss = [m for m in MEMBERS if txt.count(m) < 2]
-            if miss:
-                rep.violation("R1-key", key, facts.loc(f), "%s does not compare %s" % (opname, miss))
+            # comparison not written with std::tie: the operator is EXECUTED on all pairs of keys over a two-valued domain per
+            # member (16 x 16 pairs) and must be a strict weak order whose equivalence is equality of all four members
+            # (operator<), resp. exactly that equality (operator==)
+            import itertools
+            from vlib import ieval
+            rhs = f["params"][0]["var"]
+            keys = list(itertools.product((1, 2), repeat=len(MEMBERS)))
+            res = {}
+            try:
+                for a_ in keys:
+                    for b_ in keys:
+                        L, R = dict(zip(MEMBERS, a_)), dict(zip(MEMBERS, b_))
+
+                        def tf(e, env, L=L, R=R):
+                            e0 = e
+                            if e0["k"] == "MemberExpr" and e0.get("member") in L and e0.get("c"):
+                                b0 = facts.strip_all(e0["c"][0])
+                                if b0["k"] == "CXXThisExpr":
+                                    return L[e0["member"]]
+                                if b0["k"] == "DeclRefExpr" and b0.get("var") == rhs:
+                                    return R[e0["member"]]
+                            if e0["k"] == "CXXOperatorCallExpr" and e0.get("op") in ("<", ">", "<=", ">=", "==", "!=") and len(e0["c"]) == 3:
+                                x, y = ieval.ev(f, e0["c"][1], env), ieval.ev(f, e0["c"][2], env)
+                                return int({"<": x < y, ">": x > y, "<=": x <= y, ">=": x >= y, "==": x == y, "!=": x != y}[e0["op"]])
+                            return None
+                        v = ieval.run_body(f, f["body"], {"__termfn2__": tf})
+                        if v is None:
+                            raise ieval.Unknown("no value returned")
+                        res[(a_, b_)] = bool(v)
+            except ieval.Unknown as ex:
+                rep.undecided("R1-key", key, facts.loc(f), "comparison outside the finite evaluator: %s" % ex)
+                continue
+            bad = None
+            for a_ in keys:
+                for b_ in keys:
+                    if opname == "operator==":
+                        if res[(a_, b_)] != (a_ == b_):
+                            bad = "%s(%s, %s) is %s" % (opname, a_, b_, res[(a_, b_)])
+                    else:
+                        if a_ == b_ and res[(a_, b_)]:
+                            bad = "a key is less than itself"
+                        if res[(a_, b_)] and res[(b_, a_)]:
+                            bad = "%s < %s and %s < %s" % (a_, b_, b_, a_)
+                        if a_ != b_ and not res[(a_, b_)] and not res[(b_, a_)]:
+                            bad = "the different keys %s and %s are equivalent (neither is less): two connections share one map entry" % (a_, b_)
+            if not bad and opname == "operator<":
+                for a_ in keys:
+                    for b_ in keys:
+                        if res[(a_, b_)]:
+                            for c_ in keys:
+                                if res[(b_, c_)] and not res[(a_, c_)]:
+                                    bad = "not transitive on %s, %s, %s" % (a_, b_, c_)
+            if bad:
+                rep.violation("R1-key", key, facts.loc(f), "%s over (%s): %s" % (opname, ", ".join(MEMBERS), bad))
             else:
-                rep.undecided("R1-key", key, facts.loc(f), "comparison not written with std::tie: member coverage only")
+                rep.ok("R1-key", key, facts.loc(f), "executed on all %d pairs of keys: %s" % (
+                    len(res), "equality of all four members" if opname == "operator==" else "strict total order on the four members"))
             continue
         a, b = ties
         sa = [m for s, m in a]
@@ -100,23 +150,62 @@ def r1(db, rep):
         else:
             rep.ok("R1-key", key, facts.loc(f), "all four members, pairwise, against rhs")
     ctor = fn(db, SID + "::StreamIdentifier(const std::array")
-    swaps = []
-    g = cfg.FnCFG(ctor)
-    for n in facts.fn_nodes(ctor):
-        if n["k"] == "CallExpr" and n.get("cname") == "swap":
-            swaps.append((n, sorted(facts.expr_str(a) for a in n["c"][1:])))
-    by_block = {}
-    for n, names in swaps:
-        by_block.setdefault(g.pos(n)[0], []).append(names)
-    addr_swaps = [bl for bl, lst in by_block.items() if ["max_address", "min_address"] in lst]
-    ok = bool(addr_swaps) and all(["max_address_port", "min_address_port"] in by_block[bl] for bl in addr_swaps)
-    port_only = [bl for bl, lst in by_block.items() if lst == [["max_address_port", "min_address_port"]]]
-    if ok and port_only:
-        rep.ok("R1-key", "constructor:normalise", facts.loc(ctor), "addresses and ports swapped together; equal addresses ordered by port")
-    else:
+    # the constructor is EXECUTED for every ordering of the two endpoints (addresses <, =, > ; ports <, =, >): afterwards
+    # the (address, port) pairs are the two endpoints given, unbroken, with (min_address, min_port) <= (max_address,
+    # max_port) lexicographically - whatever if / else / swap structure achieves it
+    from vlib import ieval
+    mem = {"min_address": "min_address", "max_address": "max_address", "min_address_port": "min_address_port", "max_address_port": "max_address_port"}
+    bad = None
+    n_cases = 0
+    try:
+        for ca in (1, 2):
+            for sa_ in (1, 2):
+                for cp in (1, 2):
+                    for sp_ in (1, 2):
+                        n_cases += 1
+                        state = {"min_address": ca, "max_address": sa_, "min_address_port": cp, "max_address_port": sp_}
+
+                        def member_of(e):
+                            e0 = facts.strip_all(e)
+                            while e0["k"] in ("CXXConstructExpr", "MaterializeTemporaryExpr") and len(e0.get("c", [])) == 1:
+                                e0 = facts.strip_all(e0["c"][0])
+                            if e0["k"] == "MemberExpr" and e0.get("member") in state and strip(e0["c"][0])["k"] == "CXXThisExpr":
+                                return e0["member"]
+                            return None
+
+                        def tf(e, env):
+                            m_ = member_of(e) if e["k"] in ("MemberExpr", "ImplicitCastExpr") else None
+                            if m_ is not None:
+                                return state[m_]
+                            if e["k"] == "CXXOperatorCallExpr" and e.get("op") in ("<", ">", "<=", ">=", "==", "!=") and len(e["c"]) == 3:
+                                x, y = ieval.ev(ctor, e["c"][1], env), ieval.ev(ctor, e["c"][2], env)
+                                return int({"<": x < y, ">": x > y, "<=": x <= y, ">=": x >= y, "==": x == y, "!=": x != y}[e["op"]])
+                            return None
+
+                        def on_effect(kind, node, st):
+                            for c_ in facts.walk(node):
+                                if c_["k"] == "CallExpr" and c_.get("cname") == "swap" and len(c_["c"]) == 3:
+                                    x, y = member_of(c_["c"][1]), member_of(c_["c"][2])
+                                    if x is None or y is None:
+                                        raise ieval.Unknown("swap of something else than two key members")
+                                    state[x], state[y] = state[y], state[x]
+                                    return
+                        ieval.trace(ctor, ctor["body"], {"__termfn2__": tf}, on_effect=on_effect)
+                        lo, hi = (state["min_address"], state["min_address_port"]), (state["max_address"], state["max_address_port"])
+                        if sorted([lo, hi]) != sorted([(ca, cp), (sa_, sp_)]):
+                            bad = bad or ("for endpoints %s and %s the key holds %s and %s: address and port of one endpoint are torn apart"
+                                          % ((ca, cp), (sa_, sp_), lo, hi))
+                        elif lo > hi:
+                            bad = bad or ("for endpoints %s and %s the key keeps the order %s, %s: the two directions of one connection "
+                                          "get different keys" % ((ca, cp), (sa_, sp_), lo, hi))
+    except ieval.Unknown as ex:
+        rep.analysis_broken("StreamIdentifier constructor outside the finite evaluator: %s" % ex)
+        bad = False
+    if bad:
         rep.violation("R1-key", "constructor:normalise", facts.loc(ctor),
-                      "the two directions of a connection do not normalise to one key (%s)" %
-                      ("ports are not swapped together with the addresses" if not ok else "equal-address case does not order the ports"))
+                      "the two directions of a connection do not normalise to one key (%s)" % bad)
+    elif bad is None:
+        rep.ok("R1-key", "constructor:normalise", facts.loc(ctor), "executed for all %d orderings of the endpoints: pairs kept, smaller endpoint first" % n_cases)
 
 
 def r2(db, rep, pp):
@@ -163,7 +252,20 @@ def r3(db, rep, pp):
             txt = " ".join(facts.expr_str(l) + " " + facts.expr_str(rr or {}) for op, l, rr in gf)
             if tag == "process_packet":
                 # reachable exactly when is_finished() or the limit test holds, whatever else is tested on the way
-                roles = {"fin": lambda a: "is_finished" in a, "term": lambda a: "terminate_stream" in a or "max_buffered" in a}
+                # every bool local that feeds the terminate decision is a termination reason too (buffer limits, SACK limit)
+                tnames = set(["terminate_stream"])
+                grow = True
+                while grow:
+                    grow = False
+                    for d_ in facts.fn_nodes(f):
+                        if d_["k"] == "VarDecl" and d_.get("name") in tnames and d_.get("c"):
+                            for x_ in facts.walk(d_["c"][0]):
+                                if x_["k"] == "DeclRefExpr" and x_.get("var") and not x_.get("parm") and \
+                                        (facts.ty(f, x_) or {}).get("k") == "bool" and x_.get("name") not in tnames:
+                                    tnames.add(x_["name"])
+                                    grow = True
+                roles = {"fin": lambda a: "is_finished" in a,
+                         "term": lambda a, tnames=tnames: "max_buffered" in a or any(t_ in a for t_ in tnames)}
                 atoms, table = formula.reach_table(f, g.pos(e), lambda a: any(p_(a) for p_ in roles.values()))
                 good, why = formula.compare(atoms, table, roles, lambda en: en["fin"] or en["term"])
                 why = "erase reachable iff is_finished() or over the limits: " + why
@@ -243,6 +345,23 @@ def r5(db, rep):
         procs = [n for n in facts.fn_nodes(sp) if n["k"] == "CXXMemberCallExpr" and n.get("cname") == "process_packet" and
                  side in facts.expr_str(cfg.receiver(n))]
         key = "Stream::process_packet:%s" % side
+        if not procs:
+            # the hand-over through a selected pointer: `Flow* f = 0; if (A.belongs) f = &A; else if (B.belongs) f = &B; if (f) f->process_packet()`
+            # - the selection of this side (f = &side) is the site that must be dominated by the side's own test; the
+            # pointer starts null and the call is made only when it is non-null
+            for n in facts.fn_nodes(sp):
+                if n["k"] == "BinaryOperator" and n.get("op") == "=" and strip(n["c"][0])["k"] == "DeclRefExpr":
+                    r0 = facts.strip_all(n["c"][1])
+                    if r0["k"] == "UnaryOperator" and r0.get("op") == "&" and side in facts.expr_str(r0["c"][0]):
+                        pv = strip(n["c"][0])["var"]
+                        decl = [d for d in facts.fn_nodes(sp) if d["k"] == "VarDecl" and d.get("var") == pv]
+                        null0 = bool(decl) and decl[0].get("c") and facts.cval(decl[0]["c"][0]) == 0
+                        calls = [c for c in facts.fn_nodes(sp) if c["k"] == "CXXMemberCallExpr" and c.get("cname") == "process_packet" and
+                                 facts.strip_all(cfg.receiver(c)).get("var") == pv]
+                        guarded = calls and all(any(op_ == "true" and facts.strip_all(l_).get("var") == pv for op_, l_, r_ in cond.guards_facts(g, g.pos(c)))
+                                                for c in calls)
+                        if null0 and guarded:
+                            procs.append(n)
         if len(procs) != 1:
             rep.violation("R5-direction", key, facts.loc(sp), "expected one hand-over to %s" % side)
             continue
@@ -291,9 +410,9 @@ def r5(db, rep):
 def r6(db, rep, pp):
     # finished
     isf = fn(db, ST + "::is_finished(")
-    atoms, table = formula.truth_table(isf)
-    roles = {"cR": lambda a: "client_state" in a and "RST_SENT" in a, "sR": lambda a: "server_state" in a and "RST_SENT" in a,
-             "cF": lambda a: "client_state" in a and "FIN_SENT" in a, "sF": lambda a: "server_state" in a and "FIN_SENT" in a}
+    atoms, table = formula.truth_table(isf, prep=formula.reader(db, isf))       # named bools / state locals read through
+    roles = {"cR": lambda a: "client_" in a and "RST_SENT" in a, "sR": lambda a: "server_" in a and "RST_SENT" in a,
+             "cF": lambda a: "client_" in a and "FIN_SENT" in a, "sF": lambda a: "server_" in a and "FIN_SENT" in a}
     ok, msg = formula.compare(atoms, table, roles, lambda e: (e["cR"] or e["sR"]) or (e["cF"] and e["sF"]))
     (rep.ok if ok else rep.violation)("R6-formulas", "Stream::is_finished", facts.loc(isf),
                                       ("finished <=> (cRST or sRST) or (cFIN and sFIN): " + msg) if ok else
@@ -329,7 +448,19 @@ def r6(db, rep, pp):
                  "bytes": lambda a: "total_buffered_bytes" in a and "max_buffered_bytes_" in a}
         # atoms are "max < total" (strict) by normalisation; a non-strict comparison normalises to "total < max" negated
         strict = all(a.startswith("max_buffered") for a in atoms if "max_buffered" in a)
-        ok, msg = formula.compare(atoms, table, roles, lambda e: e["chunks"] or e["bytes"])
+        # other termination reasons may be OR-ed in (a SACK limit): whenever a buffer limit is exceeded the result is true,
+        # and with every other condition false the result is exactly `chunks or bytes`
+        role_of = dict((a, r_) for a in atoms for r_, p_ in roles.items() if p_(a))
+        miss = [r_ for r_ in roles if r_ not in role_of.values()]
+        ok, msg = (not miss), ("does not test %s (conditions found: %s)" % (miss, atoms) if miss else "%d rows agree" % len(table))
+        if ok:
+            for vals, res in table.items():
+                env_ = dict((role_of[a], v) for a, v in zip(atoms, vals) if a in role_of)
+                others = [v for a, v in zip(atoms, vals) if a not in role_of]
+                want_ = env_["chunks"] or env_["bytes"]
+                if (want_ and not res) or (not any(others) and res != want_):
+                    ok, msg = False, "under %s it yields %s, the statement requires %s" % (dict(zip(atoms, vals)), res, want_)
+                    break
         if ok and strict:
             rep.ok("R6-formulas", "process_packet:limits", facts.loc(pp, decl[0]), "terminate <=> chunks > max or bytes > max (strict): " + msg)
         else:
